@@ -8,7 +8,7 @@ from ..cfgq import bool_edges, cond_tree, const_str_of, stmt_loc, switches
 from ..facts import AnchorError, ConstVal, Origins, callee_name, method_name, mname, peel
 from .c13 import replace_chain
 
-INTERNAL = {"__SCRUT_DECLARE_VARS_CMD", "__SCRUT_TEMP_STATE_PATH", "SCRUT_TEST"}
+INTERNAL = {"__SCRUT_DECLARE_VARS_CMD", "__SCRUT_EXIT_CODE", "__SCRUT_TEMP_STATE_PATH", "SCRUT_TEST"}
 
 
 def template(prog):
@@ -188,9 +188,10 @@ def r12_4(ctx):
     if i_trap is not None:
         ctx.check(re.match(r"^\[ \{persist_state\} -eq 1 \] && trap ", top[i_trap]) is not None, "trap-conditional", where,
                   "the trap is installed exactly when {persist_state} is 1")
-    ctx.check(bool(body) and re.match(r"^local\s+code=\$\?$", body[0]) is not None and re.match(r"^exit\s+\$code$", body[-1]) is not None, "trap-preserves-exit-code", where,
+    m0 = re.match(r"^(?:local\s+)?([A-Za-z_][A-Za-z_0-9]*)=\$\?$", body[0]) if body else None
+    ctx.check(m0 is not None and re.match(r"^exit\s+\"?\$\{?%s\}?\"?$" % re.escape(m0.group(1)), body[-1]) is not None, "trap-preserves-exit-code", where,
               "the trap function first saves $? and finally exits with it (the command's exit code is preserved)",
-              "the trap function does not start with `local code=$?` / end with `exit $code`")
+              "the trap function does not start with `<name>=$?` / end with `exit $<name>`")
     joined = "\n".join(body)
     m = re.search(r"\(\n(.*)\n\)\s*>\s*\"\$__SCRUT_TEMP_STATE_PATH/state\"", joined, re.S)
     ctx.check(m is not None, "dump-target", where, "the dump group is redirected to the very file that is sourced ($__SCRUT_TEMP_STATE_PATH/state)")
@@ -221,6 +222,88 @@ def r12_4(ctx):
     ctx.check("unset -f __scrut_persist_state" in joined, "trap-not-persisted", where, "the trap function removes itself before dumping functions")
 
 
+def _segments(text):
+    """quote-aware split of shell text into simple-command segments (unquoted ; & | ( ) { } and newlines separate)"""
+    out, cur, q, i = [], [], None, 0
+    while i < len(text):
+        c = text[i]
+        if q:
+            cur.append(c)
+            if c == "\\" and q == '"' and i + 1 < len(text):
+                cur.append(text[i + 1])
+                i += 1
+            elif c == q:
+                q = None
+        elif c in "'\"":
+            q = c
+            cur.append(c)
+        elif c == "\\" and i + 1 < len(text):
+            cur.append(c + text[i + 1])
+            i += 1
+        elif c == "#" and (not cur or cur[-1] in " \t"):
+            while i < len(text) and text[i] != "\n":
+                i += 1
+            continue
+        elif c in ";&|(){}\n":
+            out.append("".join(cur))
+            cur = []
+        else:
+            cur.append(c)
+        i += 1
+    out.append("".join(cur))
+    res = []
+    for seg in out:
+        seg = seg.strip()
+        while True:
+            m = re.match(r"^(then|do|else|elif|if|while|until|time|!)\s+(.*)$", seg, re.S)
+            if not m:
+                break
+            seg = m.group(2).strip()
+        if seg:
+            res.append(seg)
+    return res
+
+
+ASSIGN = re.compile(r"^([A-Za-z_][A-Za-z_0-9]*)(\[[^\]]*\])?\+?=")
+DECL = re.compile(r"^(local|declare|typeset|export|readonly)\b((?:\s+-[A-Za-z]+)*)\s+(.*)$", re.S)
+
+
+def template_assigned_names(tpl):
+    """names that scrut's own template statements assign, declare, read into or loop over (the user's expression is a placeholder)"""
+    names = {}
+    for seg in _segments(tpl.replace("{shell_expression}", ":")):
+        m = ASSIGN.match(seg)
+        if m:
+            names.setdefault(m.group(1), seg)
+            continue
+        m = DECL.match(seg)
+        if m and not re.search(r"-[A-Za-z]*[pfF]", m.group(2) or ""):
+            for w in re.findall(r"(?:^|\s)([A-Za-z_][A-Za-z_0-9]*)(?==|\s|$)", m.group(3)):
+                names.setdefault(w, seg)
+            continue
+        m = re.match(r"^for\s+([A-Za-z_][A-Za-z_0-9]*)\s+in\b", seg) or re.match(r"^(?:read|mapfile|readarray)\b(?:\s+-\w+(?:\s+[^-\s]\S*)?)*\s+([A-Za-z_][A-Za-z_0-9]*)\s*$", seg)
+        if m:
+            names.setdefault(m.group(1), seg)
+    return names
+
+
+def r12_6(ctx):
+    """whatever the template itself assigns or declares is visible to the `declare -p` dump that runs inside the trap function
+    (a `local` shadows the user's variable of that name, a global assignment overwrites it): such names must be scrut-internal
+    and excluded from the dump"""
+    tpl = template(ctx.prog)
+    where = "src/executors/bash_runner.template"
+    table = ctx.prog.const("BASH_EXCLUDED_VARIABLES").str_table() or []
+    names = template_assigned_names(tpl)
+    ctx.check(len(names) >= 3, "assigned-names", where, "names assigned by scrut's own template statements: %s" % sorted(names), "only %d assigned names recognised" % len(names))
+    for n, seg in sorted(names.items()):
+        ctx.check(n in table and n.startswith("__SCRUT"), "template-name:" + n, where,
+                  "`%s` is scrut-internal (prefix __SCRUT) and excluded from the persisted variables" % n,
+                  "the template statement `%s` declares or assigns `%s`, which is not an excluded scrut-internal name: the variable dump runs in the same scope, so the "
+                  "user's `%s` from the test case is persisted with scrut's value (a `local` shadows it) and later test cases no longer see what a single "
+                  "session would" % (seg[:60], n, n))
+
+
 def r12_5(ctx):
     prog = ctx.prog
     table = prog.const("BASH_EXCLUDED_VARIABLES").str_table()
@@ -247,5 +330,6 @@ def run(ctx):
     ctx.run_rule("R12.1", "one state directory (a TempDir in the document's temp dir) created before the loop and handed to every per-test-case runner [E-FLOW]", r12_1, floor=5)
     ctx.run_rule("R12.2", "BashRunner::run: persist_state 0 exactly for detached test cases; excluded_variables = BASH_EXCLUDED_VARIABLES.join(|); state_directory wired [E-FLOW, E-PATH]", r12_2, floor=4)
     ctx.run_rule("R12.3", "placeholder table: template placeholders == substitutions; the analysed template is the compiled constant [E-TABLE]", r12_3, floor=3)
+    ctx.run_rule("R12.6", "every name the template itself assigns/declares (incl. `local` in the trap function) is an excluded __SCRUT internal: user variables are never shadowed in the dump [template analyzer]", r12_6, floor=4)
     ctx.run_rule("R12.4", "template order/presence: path, source state, conditional EXIT trap, expression last; trap saves/restores $?; dump group prints every state class into the sourced file [template analyzer]", r12_4, floor=14)
     ctx.run_rule("R12.5", "exclusion table == EXCL rows of the rustdoc table + scrut internals [E-TABLE]", r12_5, floor=5)
